@@ -143,14 +143,22 @@ DivCurlShiftInvariant(H, ppp, pos, u, nl, t, w) ==
 (* 5. vibrability                                                          *)
 (* ev is a (d N) x nm integer matrix (rows = components, particle-major:   *)
 (* row (i-1) d + k is component k of particle i; column l = mode l), real  *)
-(* eigenvector = ev / S; om[l] / SO is the eigenfrequency of mode l.       *)
+(* eigenvector = ev / S; om[l] / SO is the eigenfrequency of mode l, a     *)
+(* non-zero integer of EITHER sign: the weight of a mode is 1 / omega^2,   *)
+(* so the sign of a frequency entry carries no information.                *)
 (***************************************************************************)
 ModeWeight(ev, d, i, l) == SumSeq([k \in 1..d |-> ev[(i - 1) * d + k][l] * ev[(i - 1) * d + k][l]])
-\* over the common denominator (lcm om)^2 S^2 (keeps TLC's 32-bit integers small)
+\* over the common denominator lc^2 S^2, lc a common multiple of the om[l] (keeps TLC's 32-bit
+\* integers small); lc \div om[l] is exact, its square is lc^2 / om[l]^2 whatever the sign of om[l]
+VibLc(om) == VfLcm([l \in 1..Len(om) |-> Abs(om[l])])
 Vib(ev, om, d, i, S, SO) ==
-  LET lc == VfLcm(om) IN
+  LET lc == VibLc(om) IN
   RNorm(SumSeq([l \in 1..Len(om) |-> ModeWeight(ev, d, i, l) * (lc \div om[l]) * (lc \div om[l]) * SO * SO]),
         lc * lc * S * S)
+\* the literal definition, mode by mode in rationals: sum_l |e_{l,i}|^2 / omega_l^2
+VibLiteral(ev, om, d, i, S, SO) ==
+  VfRSum([l \in 1..Len(om) |-> RNorm(ModeWeight(ev, d, i, l) * SO * SO, om[l] * om[l] * S * S)])
+VibIsLiteral(ev, om, d, n, S, SO) == \A i \in 1..n : Vib(ev, om, d, i, S, SO) = VibLiteral(ev, om, d, i, S, SO)
 VibTotal(ev, om, d, n, S, SO) == VfRSum([i \in 1..n |-> Vib(ev, om, d, i, S, SO)])
 \* sum over particles = sum over modes of |e_l|^2 / omega_l^2 ; non-negative
 VibSumRule(ev, om, d, n, S, SO) ==
@@ -162,6 +170,17 @@ VibSumRule(ev, om, d, n, S, SO) ==
 VibFreqScaling(ev, om, d, n, S, SO) ==
   \A i \in 1..n : Vib(ev, [l \in 1..Len(om) |-> 2 * om[l]], d, i, S, SO)
                    = RMul(<<1, 4>>, Vib(ev, om, d, i, S, SO))
+\* omega -> -omega changes nothing: for all modes at once, for every single mode, and
+\* against the all-positive array |omega|; flipping the sign of a mode vector changes nothing either
+VibSignInvariant(ev, om, d, n, S, SO) ==
+  LET neg  == [l \in 1..Len(om) |-> 0 - om[l]]
+      absv == [l \in 1..Len(om) |-> Abs(om[l])]
+  IN  \A i \in 1..n :
+        /\ Vib(ev, neg, d, i, S, SO)  = Vib(ev, om, d, i, S, SO)
+        /\ Vib(ev, absv, d, i, S, SO) = Vib(ev, om, d, i, S, SO)
+        /\ \A l \in 1..Len(om) : Vib(ev, [om EXCEPT ![l] = 0 - om[l]], d, i, S, SO) = Vib(ev, om, d, i, S, SO)
+        /\ \A l \in 1..Len(om) :
+              Vib([r \in 1..Len(ev) |-> [ev[r] EXCEPT ![l] = 0 - ev[r][l]]], om, d, i, S, SO) = Vib(ev, om, d, i, S, SO)
 
 (***************************************************************************)
 (* 6. Fourier-space longitudinal / transverse split on the quarter-box     *)
@@ -248,6 +267,20 @@ CorrRaw(X, ts, k) ==
   ELSE <<ReDotConj(X[k + 1], X[1]), 1>>
 CorrDefined(X, ts) == CorrRaw(X, ts, 0)[1] # 0
 Corr(X, ts, k) == RDiv(CorrRaw(X, ts, k), CorrRaw(X, ts, 0))
+(***************************************************************************)
+(* 9. Neighbour files as the routines receive them.  A frame of a file is  *)
+(* a sequence of rows [id, list], one per particle, in ANY order: the      *)
+(* reader (property C05) files every row under the id written in its first *)
+(* column.  A neighbour list nl (function id -> list) written in the row   *)
+(* order `order` (a permutation of the ids) is therefore the same input.   *)
+(***************************************************************************)
+IsPerm(order, n)   == Len(order) = n /\ {order[k] : k \in 1..n} = 1..n
+NlRows(nl, order)  == [k \in 1..Len(nl) |-> [id |-> order[k], list |-> nl[order[k]]]]
+NlOfRows(rows)     == [i \in 1..Len(rows) |-> rows[CHOOSE k \in 1..Len(rows) : rows[k].id = i].list]
+RowOrderIrrelevant(nl, order) == IsPerm(order, Len(nl)) /\ NlOfRows(NlRows(nl, order)) = nl
+\* ids sorted by a key (used by the models to pick a row order)
+PermByKey(K(_), n) == LET s == SortedSeq({K(i) * 1024 + i : i \in 1..n}) IN [k \in 1..n |-> s[k] % 1024]
+
 (***************************************************************************)
 (* 8. The split for positions on an arbitrary division grid r = L m / M:   *)
 (* exp(-i q.r_i) = zeta_M^(-(n.m_i)) with zeta_M = exp(2 pi i / M).  The   *)
